@@ -54,15 +54,27 @@ pub struct Task {
 
 pub type SpawnQueue = Rc<RefCell<Vec<(String, Status, Pin<Box<dyn Future<Output = ()>>>)>>>;
 
+/// Which of several woken tasks `run()` polls next.
+#[derive(Clone, Copy, Debug)]
+pub enum Policy {
+    /// lowest task index first (the default; drivers come first)
+    Lo,
+    /// highest task index first (handlers before drivers)
+    Hi,
+    /// seeded pseudo-random choice
+    Rand(u64),
+}
+
 pub struct Exec {
     pub tasks: Vec<Task>,
     pub spawnq: SpawnQueue,
     pub log: Log,
+    pub policy: Policy,
 }
 
 impl Exec {
     pub fn new(log: Log) -> Exec {
-        Exec { tasks: vec![], spawnq: Rc::new(RefCell::new(vec![])), log }
+        Exec { tasks: vec![], spawnq: Rc::new(RefCell::new(vec![])), log, policy: Policy::Lo }
     }
 
     pub fn spawn(&mut self, name: &str, status: Status, fut: Pin<Box<dyn Future<Output = ()>>>) -> usize {
@@ -129,7 +141,24 @@ impl Exec {
         self.drain_spawns();
         let mut budget = 200_000u64;
         loop {
-            let next = self.tasks.iter().position(|t| t.fut.is_some() && t.flag.woken.load(Ordering::SeqCst));
+            let woken = |t: &Task| t.fut.is_some() && t.flag.woken.load(Ordering::SeqCst);
+            let next = match self.policy {
+                Policy::Lo => self.tasks.iter().position(woken),
+                Policy::Hi => self.tasks.iter().rposition(woken),
+                Policy::Rand(ref mut x) => {
+                    let cand: Vec<usize> = (0..self.tasks.len()).filter(|&i| woken(&self.tasks[i])).collect();
+                    if cand.is_empty() {
+                        None
+                    } else {
+                        // xorshift64*
+                        *x ^= *x >> 12;
+                        *x ^= *x << 25;
+                        *x ^= *x >> 27;
+                        let r = x.wrapping_mul(0x2545F4914F6CDD1D);
+                        Some(cand[(r >> 33) as usize % cand.len()])
+                    }
+                }
+            };
             match next {
                 None => return true,
                 Some(i) => {
